@@ -88,7 +88,7 @@ class Collection(NadaType):
                             else ty.class_to_mir()
                         )
                         for ty in [
-                            type(value)
+                            value
                             for value in self.values  # pylint: disable=E1101
                         ]
                     ]
@@ -104,7 +104,7 @@ class Collection(NadaType):
                             else ty.class_to_mir()
                         )
                         for name, ty in [
-                            (name, type(value))
+                            (name, value)
                             for name, value in self.values.items()  # pylint: disable=E1101
                         ]
                     }
